@@ -19,6 +19,7 @@ import (
 	"verif/mc/dump"
 	"verif/mc/explore"
 	"verif/mc/order"
+	"verif/mc/props/scalekit"
 )
 
 // G is one program: identity i lives in Place[i] (0: module a, 1: module b, 2: submodule as of a),
@@ -344,8 +345,9 @@ type Exec struct {
 }
 
 type Input struct {
-	G    G    `json:"graph"`
-	A, B Exec // B only for order-dependence
+	G     G              `json:"graph"`
+	A, B  Exec           // B only for order-dependence
+	Scale *scalekit.Case `json:"scale,omitempty"`
 }
 
 func maxN(tier string) int {
@@ -362,7 +364,7 @@ func shards(tier string) []string {
 	for i := 0; i < nShards; i++ {
 		out = append(out, fmt.Sprintf("g/%d", i))
 	}
-	return out
+	return append(out, scalekit.ShardNames()...)
 }
 
 func enum(tier string, f func(G)) {
@@ -445,6 +447,10 @@ func enum(tier string, f func(G)) {
 }
 
 func run(c *core.Ctx) {
+	if strings.HasPrefix(c.Shard, "scale/") {
+		scalekit.Run(c, c.Shard, scaleCases(c.Tier), checkScale, func(cs scalekit.Case) any { return Input{Scale: &cs} })
+		return
+	}
 	if !order.Active() {
 		panic("C11 needs the worker built against the instrumented copy (variant order)")
 	}
@@ -550,6 +556,10 @@ func replay(tier string, raw json.RawMessage) (bool, string, string) {
 	var in Input
 	if err := json.Unmarshal(raw, &in); err != nil {
 		return false, "", err.Error()
+	}
+	if in.Scale != nil {
+		v := checkScale(*in.Scale)
+		return v.Fp != "", "scale:" + v.Fp, fmt.Sprintf("expected %s\nobserved %s", v.Exp, v.Obs)
 	}
 	if !order.Active() {
 		return false, "", "needs the order variant"
